@@ -1,9 +1,18 @@
-(* C08_lex.v — text level (tokenizer) theorems of C08; see coq/theories/Lex*.v *)
+(* C08_lex.v — C08 (accepted iff documented), TEXT LEVEL: what the tokenizer makes of a text. *)
 From Coq Require Import String NArith ZArith List Bool.
-From BP Require Import TotalBase LexBase Lex LexSpec.
+From BP Require Import TotalBase LexBase Lex LexSpec LexCase LexProofs.
 From BPGen Require Import GenLexer.
 Import ListNotations.
 
-Theorem C08_lex_rules_consume : forallb (fun r => consumes (r_rx r) && rx_wf (r_rx r)) lex_rules = true.
+(* tiling: the lexemes and the skipped characters, in order, are exactly the input up to the point
+   where the loop stopped (nothing dropped, reordered or read twice); on normal termination that
+   is the whole input *)
+Theorem C08_lex_tiling : forall uw s its e rem,
+  lex_run uw s = (its, e, rem) -> items_text its ++ rem = s /\ (e = LDone -> rem = []).
+Proof. exact lex_tiling. Qed.
+Print Assumptions C08_lex_tiling.
+
+Example C08_lex_nonvacuous :
+  let s := [117;105;110;116;56;32;120;61;34;97;92;34;98;34;47;47;99;10;48;120;49;70]%N in
+  items_text (fst (fst (lex_run uni_word s))) = s.
 Proof. vm_compute. reflexivity. Qed.
-Print Assumptions C08_lex_rules_consume.
